@@ -41,6 +41,7 @@ type Job struct {
 	Sels    []string `json:"sels,omitempty"`
 	WantJS  bool     `json:"want_js,omitempty"`
 	Events  bool     `json:"events,omitempty"`
+	Depths  bool     `json:"depths,omitempty"` // record the frame depth at which each stdout line starts
 	IO      bool     `json:"io,omitempty"`
 	Budget  int64    `json:"budget,omitempty"`
 	Fuzzing bool     `json:"fuzzing,omitempty"`
@@ -85,6 +86,7 @@ type Result struct {
 	HasEv    bool      `json:"has_ev,omitempty"`
 	Events   []Ev      `json:"events,omitempty"`
 	Depth    int       `json:"depth"` // frame depth at the end of the run (0 = base)
+	LineDep  []int     `json:"line_dep,omitempty"`
 	LC       []LineCol `json:"lc,omitempty"`
 	Toks     []Tok     `json:"toks,omitempty"`
 	LexErr   bool      `json:"lex_err,omitempty"`
@@ -172,9 +174,32 @@ func classify(err error, res *Result) {
 	}
 }
 
+// depthWriter records, for every stdout line, the frame depth at its first byte.
+type depthWriter struct {
+	buf     *bytes.Buffer
+	depth   *int
+	lineDep []int
+	atStart bool
+}
+
+func (w *depthWriter) Write(p []byte) (int, error) {
+	for _, b := range p {
+		if w.atStart {
+			w.lineDep = append(w.lineDep, *w.depth)
+			w.atStart = false
+		}
+		if b == '\n' {
+			w.atStart = true
+		}
+	}
+	return w.buf.Write(p)
+}
+
 func execRun(j *Job) (res Result) {
 	var out bytes.Buffer
 	var events []Ev
+	curDepth := 0
+	dw := &depthWriter{buf: &out, depth: &curDepth, atStart: true}
 	files := make([]lang.InputFile, 0, len(j.Files))
 	for i, f := range j.Files {
 		at := f.FaultAt
@@ -190,9 +215,14 @@ func execRun(j *Job) (res Result) {
 		}
 		files = append(files, lang.InputFile{Name: f.Name, Reader: rd})
 	}
-	if j.Events {
+	if j.Events || j.Depths {
 		lang.VerifSetSink(func(e lang.VerifEvent) {
-			events = append(events, Ev{e.Ev, e.A, e.B, e.S})
+			if e.Ev == "Push" || e.Ev == "Pop" {
+				curDepth = e.A
+			}
+			if j.Events {
+				events = append(events, Ev{e.Ev, e.A, e.B, e.S})
+			}
 		})
 	} else {
 		lang.VerifSetSink(nil)
@@ -217,12 +247,19 @@ func execRun(j *Job) (res Result) {
 				res.Detail = fmt.Sprintf("%v\n%s", r, buf[:n])
 			}
 		}()
-		ev, err = lang.EvalProgram(string(j.Prog), files, j.Sels, &out, j.Fuzzing)
+		var w io.Writer = &out
+		if j.Depths {
+			w = dw
+		}
+		ev, err = lang.EvalProgram(string(j.Prog), files, j.Sels, w, j.Fuzzing)
 		classify(err, &res)
 	}()
 	lang.VerifSetSink(nil)
 	lang.VerifSetBudget(-1)
 	res.Stdout = append([]byte{}, out.Bytes()...)
+	if j.Depths {
+		res.LineDep = dw.lineDep
+	}
 	if j.Events || j.IO {
 		res.Events = events
 		res.HasEv = true
